@@ -9,6 +9,7 @@ import (
 	"reflect"
 	"strings"
 	"testing"
+	"unicode"
 	"unicode/utf8"
 
 	"github.com/pgavlin/dawn/internal/project"
@@ -166,6 +167,17 @@ func exec(c Case) (v ev.Verdict) {
 	if !bytes.Equal(b1, b2) {
 		return ev.Failf("rewrite-differs", "Write(Load(Write(c))) differs from Write(c):\n%s\n---\n%s", b1, b2)
 	}
+	// "writing again produces identical bytes" every time, not just once (entries are kept in maps)
+	if len(c.Reqs) > 1 {
+		for i := 0; i < 4; i++ {
+			if err := project.WriteConfigFile(p2, loaded); err != nil {
+				return ev.Failf("write-error", "repeated WriteConfigFile failed: %v", err)
+			}
+			if b3, _ := os.ReadFile(p2); !bytes.Equal(b1, b3) {
+				return ev.Failf("rewrite-differs", "writing the loaded configuration again (attempt %d) differs from the first file:\n%s\n---\n%s", i+2, b1, b3)
+			}
+		}
+	}
 	// get/tidy style rewrite: load, replace the requirements, write, load
 	loaded.Requirements = c.config(c.NewReqs).Requirements
 	if err := project.WriteConfigFile(p1, loaded); err != nil {
@@ -227,6 +239,32 @@ func genReqs(t *rapid.T, label string) []Req {
 	var out []Req
 	for i := 0; i < n; i++ {
 		name := genString(t, 1)
+		if len(out) > 0 && rapid.IntRange(0, 2).Draw(t, "variant") == 2 {
+			// a near-twin of an earlier name: other letter case, one letter case-toggled, a trailing
+			// space or dot, composed vs decomposed accent
+			prev := out[rapid.IntRange(0, len(out)-1).Draw(t, "twinof")].Name
+			switch rapid.IntRange(0, 5).Draw(t, "twin") {
+			case 0:
+				name = strings.ToUpper(prev)
+			case 1:
+				name = strings.ToLower(prev)
+			case 2:
+				r := []rune(prev)
+				i := rapid.IntRange(0, len(r)-1).Draw(t, "togglepos")
+				if unicode.IsUpper(r[i]) {
+					r[i] = unicode.ToLower(r[i])
+				} else {
+					r[i] = unicode.ToUpper(r[i])
+				}
+				name = string(r)
+			case 3:
+				name = prev + " "
+			case 4:
+				name = prev + "."
+			default:
+				name = prev + "\u0301"
+			}
+		}
 		if name == "" || seen[name] {
 			continue
 		}
